@@ -28,7 +28,7 @@ LEVEL = 'exploration'
 ENGINE = 'bex'
 RULE = (
     'complete products: (R) routes x step triples x tables; (E) origin elevation x destination '
-    'elevation x tables on one route; (S) all step-fraction triples x routes; (D) one phase with a '
+    'elevation x tables on one route; (EC) the same around a ceiling below the top of the table; (S) all step-fraction triples x routes; (D) one phase with a '
     'degenerate step fraction; (L) ladder of short routes; (M) load factor x starting mass x mass-iteration '
     'setting x routes; (Q2/Q3/QV) every ordered pair / triple of missions (a route, its reverse, other routes, '
     'refused missions; tables, load factor and starting mass varying between the calls) flown in sequence on ONE '
@@ -39,7 +39,8 @@ RULE = (
 ASSUMPTIONS = [
     'airports come from the harness file data/C02_airports/airports/airports.csv placed first on the data path',
     'tables: shipped sample model, the legacy-verification model, a synthetic 3-level table with ceiling '
-    '39 000 ft and a wide mass range, the sample table cut at FL300 (cruise level outside the table)',
+    '39 000 ft and a wide mass range, the sample table cut at FL300 (cruise level outside the table), the sample '
+    'table with the ceiling lowered to 30 000 / 25 000 ft (table reaches above the ceiling)',
     'no weather (use_weather=False); builders and performance models are reused across cases inside a worker; '
     'sequence cases (Q*) create their own builder so that they replay in a fresh process',
     'positions are compared with a private WGS-84 pyproj Geod (trusted primitive)',
@@ -97,6 +98,17 @@ ELEV = {
                  36000, 37999, 38000, 39000, 41000, 42000],
 }  # fmt: skip
 ELEV_ROUTE = 'E1000'
+# elevations around ceilings that lie BELOW the top level of the table (tables 'ceil30', 'ceil25': the sample
+# table with maximum_altitude_ft 30 000 / 25 000): ceiling-10 000, ceiling-3 000, ceiling, each +-1 ft, plus
+# airports above the ceiling but inside the table (35 000, 41 000 ft) where only the schedule rules can refuse.
+ELEV_LOWCEIL = {
+    'quick': [None, 20000, 27000, 29999, 30000, 30001, 35000],
+    'thorough': [None, 5355, 14999, 15000, 15001, 19999, 20000, 20001, 21999, 22000, 22001, 24999, 25000, 25001,
+                 26999, 27000, 27001, 29999, 30000, 30001, 35000, 41000],
+}  # fmt: skip
+TABLES_LOWCEIL = {'quick': ['ceil30'], 'thorough': ['ceil30', 'ceil25']}
+# every elevation that has an airport pair on the elevation route (index = airport code number; append only)
+ELEV_CODES = ELEV['thorough'] + [e for e in ELEV_LOWCEIL['thorough'] if e not in ELEV['thorough']]
 
 
 def _airport_table():
@@ -107,7 +119,7 @@ def _airport_table():
         t[f'Z{k:X}A'] = (o[0], o[1], None if k % 2 else 0)  # alternate blank / 0 ft (`elevation or 0.0`)
         t[f'Z{k:X}B'] = (d[0], d[1], 0 if k % 2 else None)
     o, d = ROUTE_POINTS[ELEV_ROUTE]
-    for j, e in enumerate(ELEV['thorough']):
+    for j, e in enumerate(ELEV_CODES):
         t[f'O{j:02d}'] = (o[0], o[1], e)
         t[f'D{j:02d}'] = (d[0], d[1], e)
     for code, (lo, la, e) in REAL.items():
@@ -124,8 +136,7 @@ def route_codes(route, oe=None, de=None, rev=False):
     if route in REAL_ROUTES:
         o, d = REAL_ROUTES[route]
     elif route == ELEV_ROUTE:
-        th = ELEV['thorough']
-        o, d = f'O{th.index(oe):02d}', f'D{th.index(de):02d}'
+        o, d = f'O{ELEV_CODES.index(oe):02d}', f'D{ELEV_CODES.index(de):02d}'
     else:
         k = list(ROUTE_POINTS).index(route)
         o, d = f'Z{k:X}A', f'Z{k:X}B'
@@ -275,6 +286,12 @@ def sublattices(tier, seed):
         'axes': {'origin_elevation_ft': ELEV[tier], 'destination_elevation_ft': ELEV[tier], 'table': et, 'route': [ELEV_ROUTE]},
         'cases': [_case('E', oe=a, de=b, table=t) for a in ELEV[tier] for b in ELEV[tier] for t in et],
     })  # fmt: skip
+    subs.append({
+        'name': 'EC: origin elevation x destination elevation around a ceiling below the top of the table',
+        'axes': {'origin_elevation_ft': ELEV_LOWCEIL[tier], 'destination_elevation_ft': ELEV_LOWCEIL[tier],
+                 'table': TABLES_LOWCEIL[tier], 'route': [ELEV_ROUTE], 'steps (1/n per phase)': [[50, 50, 50]]},
+        'cases': [_case('EC', oe=a, de=b, table=t, steps=[50, 50, 50]) for a in ELEV_LOWCEIL[tier] for b in ELEV_LOWCEIL[tier] for t in TABLES_LOWCEIL[tier]],
+    })  # fmt: skip
     dens = STEP_DEN[tier]
     subs.append({
         'name': 'S: climb step x cruise step x descent step x routes',
@@ -358,10 +375,14 @@ def _load_tables():
     ifl = [c.lower() for c in fp['cols']].index('fl')
     d['flight_performance'] = {'cols': fp['cols'], 'data': [r for r in fp['data'] if r[ifl] <= 300.0]}
     t['lowtab'] = PerformanceModel.from_data(d)
+    for name, ceil in (('ceil30', 30000), ('ceil25', 25000)):  # ceiling below the top level of the (full) table
+        d = dict(base)
+        d['maximum_altitude_ft'] = ceil
+        t[name] = PerformanceModel.from_data(d)
     return t
 
 
-CEILING_FT = {'sample': 41000, 'legacy': 41000, 'synth3': 39000, 'lowtab': 41000}
+CEILING_FT = {'sample': 41000, 'legacy': 41000, 'synth3': 39000, 'lowtab': 41000, 'ceil30': 30000, 'ceil25': 25000}
 
 # ------------------------------------------------------------------ driving the real code
 
